@@ -289,4 +289,6 @@ def rule_drop(ctx):
 
 
 def run(ctx):
-    return [rule_worklist(ctx), rule_drop(ctx)]
+    from .common import rule_cachekey
+    return [rule_worklist(ctx), rule_drop(ctx),
+            rule_cachekey(ctx, 'C15', 'C15.cachekey', [EXCEL])]
